@@ -421,6 +421,9 @@ META = (META[0] + ' CONDORDER (in a counted routine the count test precedes the 
 META = (META[0] + ' PREVBOUND (a loop that stops at `!= prev(last)` knows the range is not empty; controls in fixtures/extra8_pos.hpp).', META[1])
 
 
+META = (META[0] + ' LITMASK over _bit/ (no mask or power of two is built by shifting an int / unsigned literal by a run-time count: for a 64-bit argument a count of 32 or more is undefined, so constant evaluation fails and run time wraps; control in fixtures/arith_pos.hpp).', META[1])
+
+
 def run(chk, tier):
     db = D.load("plain")
     with open(c05.SPEC) as fh:
@@ -504,6 +507,8 @@ def run(chk, tier):
     from ..rules import arith as _AR
     _AR.negmin_area(chk, cdb, [""])
     _AR.positive_controls(chk, D, ("NEGMIN",))
+    from . import c17 as _c17
+    _c17.litmask_rule(chk, D.load('checks'), ('_bit/',))      # LITMASK (zero expected on the library)
     # ---- PRECALL: valid calls never violate the precondition of a member they call internally
     if c05.precall(chk, D.load("checks")) < 40:
         chk.analysis_broken("PRECALL: fewer than 40 container operations with a contract-table entry found")
